@@ -480,6 +480,59 @@ func (eng *Engine) checkConstMap(cm *ConstMap) (bool, string) {
 	return true, ""
 }
 
+// checkNoStore: the named function has no Store whose address indexes a slice loaded from a struct field called cs.Callee.
+func (eng *Engine) checkNoStore(cs *ConstStr) (bool, string) {
+	var cands []*ssa.Function
+	for _, fn := range eng.funcs {
+		if fn.Pkg != nil && fn.Pkg.Pkg.Path() == cs.PkgPath && fn.Name() == cs.Func {
+			cands = append(cands, fn)
+		}
+	}
+	if len(cands) != 1 {
+		return false, fmt.Sprintf("%d functions named %s in %s", len(cands), cs.Func, cs.PkgPath)
+	}
+	var fromField func(v ssa.Value, depth int) bool
+	fromField = func(v ssa.Value, depth int) bool {
+		if depth > 8 {
+			return true // give up conservatively
+		}
+		switch x := v.(type) {
+		case *ssa.UnOp:
+			if fa, ok := x.X.(*ssa.FieldAddr); ok && x.Op == token.MUL {
+				return fieldName(fa) == cs.Callee
+			}
+		case *ssa.Slice:
+			return fromField(x.X, depth+1)
+		case *ssa.Phi:
+			for _, e := range x.Edges {
+				if fromField(e, depth+1) {
+					return true
+				}
+			}
+		}
+		return false
+	}
+	seen := false
+	for _, b := range cands[0].Blocks {
+		for _, in := range b.Instrs {
+			if fa, ok := in.(*ssa.FieldAddr); ok && fieldName(fa) == cs.Callee {
+				seen = true
+			}
+			st, ok := in.(*ssa.Store)
+			if !ok {
+				continue
+			}
+			if ia, ok := st.Addr.(*ssa.IndexAddr); ok && fromField(ia.X, 0) {
+				return false, "store into an element of ." + cs.Callee + " at " + cands[0].Prog.Fset.Position(st.Pos()).String()
+			}
+		}
+	}
+	if !seen {
+		return false, "the function does not mention a field ." + cs.Callee + " (stale clause)"
+	}
+	return true, ""
+}
+
 // checkConstStr: the k-th call of callee in the named function has exactly one constant string argument, equal to the literal.
 func (eng *Engine) checkConstStr(cs *ConstStr) (bool, string) {
 	var cands []*ssa.Function
